@@ -67,6 +67,35 @@ Section Lazy.
     intros det St N. eapply Permutation_NoDup; [apply Permutation_sym, ordered_fst_perm | exact N].
   Qed.
 
+  (* the facts written are the facts listed, each as often as listed *)
+  Lemma facts_of_perm : forall (S1 S2 : pstore),
+    Permutation S1 S2 -> Permutation (facts_of S1) (facts_of S2).
+  Proof.
+    intros S1 S2 P. unfold facts_of. induction P as [|e l l' P IH|e e' l|l l' l'' P1 IH1 P2 IH2].
+    - apply Permutation_refl.
+    - cbn [flat_map]. apply Permutation_app_head. exact IH.
+    - cbn [flat_map]. rewrite !app_assoc. apply Permutation_app_tail, Permutation_app_comm.
+    - eapply Permutation_trans; eassumption.
+  Qed.
+
+  Lemma facts_of_sort_rows : forall l : pstore,
+    Permutation
+      (facts_of (map (fun e : psym * list row =>
+                        (fst e, isort (fact_ltb const print fhash (fst (fst e))) (snd e))) l))
+      (facts_of l).
+  Proof.
+    unfold facts_of. induction l as [|e l IH]; [apply Permutation_refl|].
+    cbn [map flat_map fst snd]. apply Permutation_app; [|exact IH].
+    apply Permutation_map, isort_perm.
+  Qed.
+
+  Lemma ordered_facts_perm : forall det (St : pstore),
+    Permutation (facts_of (ordered det St)) (facts_of St).
+  Proof.
+    intros [|] St; [|apply Permutation_refl]. unfold SimpleColumn.ordered.
+    eapply Permutation_trans; [apply facts_of_sort_rows | apply facts_of_perm, isort_perm].
+  Qed.
+
   (* ----------------------------------------------------------- small pieces *)
   Lemma skip_lines_app : forall (pre rest : list bytes),
     skip_lines (Z.of_nat (length pre)) (pre ++ rest) = Some rest.
